@@ -289,8 +289,20 @@ def proved(run):
                "conformance of the code to the construction is proved where listed, the property itself is checked bounded",
                "A: _gen_nt freshness; rename's f injective (precondition of the property)",
                "CLOSURE(G) for closure_scc_based [bounded in C15]")
-    for f in (rename, separate_start, unfold, unaryremove, fresh_names_bot):
+    for f in (rename, separate_start, unfold, unaryremove, fresh_names_bot, nullaryremove_provenance):
         try:
             f(run)
         except (I.OutOfSubset, KeyError) as e:
             run.obligation(f"C06/{f.__name__}", "out-of-subset", role=AUX, detail=str(e))
+
+
+def nullaryremove_provenance(run):
+    """C06/cfg.CFG.nullaryremove/pushes-null-weights-of-the-same-grammar (auxiliary): executing the real body over grammar tokens,
+    the chart handed to _push_null_weights is the null_weight() of the very grammar it is applied to (after separate_start and,
+    with binarize=True, after binarisation: the fold nonterminals must have their null weights in the chart)."""
+    from props import C07_proved
+    any_tbl = {k: (lambda a, kw: ([], [], [])) for k in ("separate_terminals", "binarize", "separate_start", "_push_null_weights", "trim", "unaryremove")}
+    for bz in (True, False):
+        C07_proved.compose(run, "CFG.nullaryremove", f"C06/cfg.CFG.nullaryremove/pushes-null-weights-of-the-same-grammar[binarize={bz}]",
+                           any_tbl, start=set(), kwargs=dict(binarize=bz), want=set(), provenance=True, role=AUX)
+
